@@ -288,7 +288,7 @@ var (
 	reNode    = regexp.MustCompile(`\bn[0-9]\b`)
 	reWName   = regexp.MustCompile(`[A-Za-z0-9]+_[A-Za-z0-9]+_[A-Za-z]{6}\b`)
 	reIdent   = regexp.MustCompile(`/[A-Za-z]{16}\b`)
-	reEventID = regexp.MustCompile(`/events/[0-9]+`)
+	reEventID = regexp.MustCompile(`/events/[0-9a-f]+`)
 )
 
 // faultLayer names the class of the failing step (ids, node names, generated names and
